@@ -4,6 +4,13 @@ import json, os, sys
 HERE = os.path.dirname(os.path.dirname(os.path.abspath(__file__)))
 
 CHECKS = {
+ "C04": dict(level="proof", design="4.4",
+   technique="presence abstract interpretation (truth-table evaluation) of every overload body over clang's AST of the template patterns",
+   text="Decides the property at the level of the overload bodies: each of the ~240 xoptional/xmasked_value operator, compound-assignment, "
+        "comparison, lifted-function, select and value_or bodies (template patterns, so overloads no test instantiates are covered) is evaluated "
+        "under all 2^k presence assignments with short-circuit semantics; obligations: presence = conjunction, value = own operation on operand "
+        "values in parameter order, no operation touches a missing operand's value, compound-assignment flag/target rules, ==/!= truth table.",
+   note="Trusts the ~400-line evaluator sa/presence.py and clang's pattern AST; assumes the underlying operation on the value types means what its name says; unary operators and == are exempt from non-evaluation as in the statement."),
  "C15": dict(level="proof", design="4.13",
    technique="interval/ordering abstract interpretation of every instantiation over clang's resolved AST + constexpr static_assert witnesses",
    text="Decides the property for all ordered pairs of the 11 builtin integer types: each of the 726 instantiated bodies is evaluated with "
